@@ -2,7 +2,7 @@
    Property theorems only; proofs are in ProofC19.v (quoting, U-Boot corollaries) and ProofSession.v (the
    command/response exchange for every fragmentation).  hush_words is the model of U-Boot's classic hush parser
    (an environment model, see Hush.v); `plain` = no CR / LF / 0x03 / 0x04. *)
-From TV Require Import Base Utf8 Regex Channel ChannelLemmas Hush Session ProofSession ProofC19.
+From TV Require Import Base Utf8 Utf8Lemmas Regex Channel ChannelLemmas Hush Session ProofSession ProofC19 ProofEnvUtf8.
 
 (* (1) every argument list comes out of hush exactly as it went in: one word per argument, no variable
        expansion, command separation or comment taking effect -- on code points and on the bytes sent *)
@@ -63,7 +63,7 @@ Proof. exact ub_exec0_iff. Qed.
 Print Assumptions C19_exec0_raises_iff_nonzero.
 
 (* (4) env: setting a variable and reading it back returns exactly the value (ASCII names and values; the
-       UTF-8 decoding of non-ASCII values is covered by the correspondence runs, not by this theorem) *)
+       general statement for arbitrary text is (4b) below) *)
 Theorem C19_env_roundtrip :
   forall var v P c s1 s2 s3 s4 sts,
   insync c -> prompt c = Some (SLit P) -> P <> [] ->
@@ -81,3 +81,29 @@ Theorem C19_env_roundtrip :
   exists c', ub_env var (Some v) (s1 :: s2 :: s3 :: s4 :: sts) c = (X0Ok v, c', sts) /\ insync c'.
 Proof. exact ub_env_roundtrip. Qed.
 Print Assumptions C19_env_roundtrip.
+
+(* (4b) the same for ARBITRARY text: names and values of Unicode scalar values (no CR / LF / 0x03 / 0x04);
+        rests on utf8_dec (utf8_enc s ++ r) = s ++ utf8_dec r (Utf8Lemmas.v) *)
+Theorem C19_env_roundtrip_any_text :
+  forall var v P c s1 s2 s3 s4 sts,
+  insync c -> prompt c = Some (SLit P) -> P <> [] ->
+  plain var -> plain v -> Forall scalar var -> Forall scalar v ->
+  let setline := utf8_enc (ub_escape [SETENV; var; v]) in
+  let getline := utf8_enc (ub_escape [PRINTENV; var]) in
+  any_in (blacklist c) (setline ++ [CR]) = false -> any_in (blacklist c) (getline ++ [CR]) = false ->
+  any_in (blacklist c) (ECHO_Q ++ [CR]) = false ->
+  prompt_only_at_end P (ZERO ++ [CR; LF]) ->
+  prompt_only_at_end P (utf8_enc (var ++ [61%N] ++ v) ++ [CR; LF]) ->
+  wf_pend s1 -> cat s1 = (setline ++ [CR; LF]) ++ [] ++ P ->
+  wf_pend s2 -> cat s2 = (ECHO_Q ++ [CR; LF]) ++ (ZERO ++ [CR; LF]) ++ P ->
+  wf_pend s3 -> cat s3 = (getline ++ [CR; LF]) ++ (utf8_enc (var ++ [61%N] ++ v) ++ [CR; LF]) ++ P ->
+  wf_pend s4 -> cat s4 = (ECHO_Q ++ [CR; LF]) ++ (ZERO ++ [CR; LF]) ++ P ->
+  exists c', ub_env var (Some v) (s1 :: s2 :: s3 :: s4 :: sts) c = (X0Ok v, c', sts) /\ insync c'.
+Proof. exact ub_env_roundtrip_utf8. Qed.
+Print Assumptions C19_env_roundtrip_any_text.
+
+(* decoding the UTF-8 encoding of a text gives back the text (every Unicode scalar value, 1-4 byte forms) *)
+Theorem C19_utf8_roundtrip :
+  forall s, Forall scalar s -> utf8_dec (utf8_enc s) = s.
+Proof. exact utf8_roundtrip. Qed.
+Print Assumptions C19_utf8_roundtrip.
